@@ -548,3 +548,70 @@ PROPS = {
     "level_note": "partial: all float error budgets (padding constants, cap / cell bounds, sub-region expansion) are searched, not proved",
     },
 }
+
+PROPS["C16"] = {
+    # quick ~ 40 s on 16 cores (0.9 ms / line in the oracle), thorough ~ 6 min
+    "generators": [("c16", 64000, 1600000)],
+    "modules": ["S2.EdgeNum", "S2.IA", "S2.Pred", "S2.Exact", "S2.Contain", "S2.STUV", "S2.F64"],
+    "rule": "op isect: crossing edge pairs (emitted only when s2.CrossingSign == Cross and the two great circles are exactly identical or "
+            "at an angle >= 1.05e-15, checked in exact rational arithmetic by the generator and again by the oracle) from 8 classes: generic "
+            "(crossing angle log-uniform 1e-15..pi/2, lengths log-uniform 1e-300..3.1), tiny edges around axis points (1e-300..1e-9), crossing "
+            "at / 1e-300..1e-3 from an endpoint incl. an endpoint exactly on / +-1..2 ulps off the other great circle, small angles with long "
+            "edges, exactly collinear overlapping edges on the great circles x=0, y=0, z=0, x=y in every interleaving and orientation and "
+            "tilted by 2e-15..1e-9, nearly antipodal endpoints (pi - 1e-9 .. pi - 0.1), equal-length mirror images (compareEdges tie-break), "
+            "uniform.  Each line: Intersection under all 8 argument permutations + intersectionStable (accept flag, point) + "
+            "intersectionExact + compareEdges through the hooks.  Model comparison: all of them bit-exact.  Judge (exact integer "
+            "arithmetic): 8 results bit-identical (clause bitident; bitident-zero-sign when they differ only in the sign of a zero), "
+            "|p| in 1 +- 2*dblEpsilon (unit), angle to the exact direction +-(a0xa1)x(b0xb1) <= 8*2^-53 decided with "
+            "eps - eps^3/4 < sin eps <= eps (acc), on the side of the exact crossing (hemi), accepted stable results inside the bound "
+            "(stable-accept), collinear edges: an input vertex lying on both closed edges (collinear-point). "
+            "KNOWN class F5 has its own clause hemi-antipodal (both edges within 2^-20 rad of antipodal); three such inputs are emitted by every shard. "
+            "non-trivial = every isect line; distinct = distinct argument tuples",
+    "nontrivial": lambda l: l.startswith("isect "),
+    "trusted_base": ["NOT proved (partial): the 8*2^-53 accuracy bound, unit length, and the sign symmetry of the float kernels "
+                     "(KernelSym) — judged on every line by the exact-arithmetic oracle",
+                     "the enclosure eps - eps^3/4 < sin eps (Mathlib Real.sin_gt_sub_cube) is used by the judge; cited, not re-proved",
+                     "Go's math/big.Float never rounds at 2^26 bits on these inputs and Float64() rounds to nearest even "
+                     "(modelled incl. the sign of zero; tied by bit-exact comparison of intersectionExact on every line)"],
+    "assumptions": ["arguments are unit length within the Normalize guarantee and CrossingSign(a0,a1,b0,b1) == Cross; "
+                    "crossing angle >= 1e-15 or exactly collinear (quantifier text)"],
+    "partial": ["UnitLengthClaim, AccuracyClaim, BitIdentityClaim, GoEqualityClaim are `def … : Prop` judged by the oracle; the inputs that refuted "
+                "them before the repairs F1-F4 are kept as kernel-checked regression examples; accuracyClaim_false records the KNOWN finding F5; "
+                "order_independence_partial / selection_order_independent: bit identity for kernels that are sign-symmetric up to the sign of zeros"],
+}
+PROPS["C17"] = {
+    # quick ~ 50 s on 16 cores (15 ms / line: ~50 soft-float distance evaluations per pedist line), thorough ~ 8 min
+    "generators": [("c17", 24000, 480000)],
+    "modules": ["S2.EdgeNum", "S2.IA", "S2.Pred", "S2.Exact", "S2.Contain", "S2.STUV", "S2.F64"],
+    "rule": "pedist (60 %): edges degenerate / 1e-15 .. pi-1e-9 long, axis-aligned or random; query x = a, b, +-1..2 ulps, on the edge "
+            "(Interpolate) and nudged / displaced perpendicular by 1e-17..1e-3, beyond the ends, the pole of the edge exactly and nudged, "
+            "antipodes of a, b, midpoint and on-edge points exactly and nudged, ~90 degrees away, uniform; thresholds = computed "
+            "distance, its predecessor / successor, 0, 2, 4, Inf, -1, random, and the same around the max distance.  Model comparison "
+            "(bit-exact soft-float): updateMinDistance, interiorDist, UpdateMinDistance, IsDistanceLess, UpdateMinInteriorDistance, "
+            "IsInteriorDistanceLess, UpdateMaxDistance, minUpdateDistanceMaxError, Project.  Judge (rational interval arithmetic, "
+            "160-bit sqrt enclosures, true values defined on the normalised input directions): |d - true| <= documented bound "
+            "(max of the bound at the computed and at the true value) (dist-err), d <= endpoint distance + bound (dist-endpoint), "
+            "d = 0 for x = a or b (zero-endpoint), valid chord <= 4 (chord-invalid), threshold forms vs the computed distance "
+            "judged UP TO THE DOCUMENTED ERROR BOUND (clause thresh fires only when the threshold form and the computed distance disagree by more than "
+            "minUpdateDistanceMaxError; a literal 1-ulp disagreement inside the bound is not a failure — theorem not_thresholdAgrees records that it exists), "
+            "max distance (maxdist-err; KNOWN-class clause maxdist-rightangle when both endpoint chords are within 2^-45 of 2; thresh-max), DistanceFromSegment angle vs chord by a Taylor enclosure of sin (angle-conv), "
+            "Project on the great circle / between a and b / realising the distance (project-circle, project-between, project-dist, "
+            "all replaced by the single KNOWN-class clause project-nearpole when x is within ~5 degrees of the pole of the edge: sin^2 angle(x, a x b) < 2^-7), Interpolate(0)=a, Interpolate(1)=b bitwise, "
+            "Interpolate(0.5) vs a+b, Interpolate(DistanceFraction(x)) vs x for x on the edge, Interpolate(DistanceFraction(Project x)) vs "
+            "Project x, tolerance 2^-46 rad where the library documents none.  eedist (25 %): crossing, touching, degenerate, parallel, "
+            "nearly antipodal pairs: updateEdgePairMin/MaxDistance at all thresholds, EdgePairClosestPoints (model comparison + ee-err, "
+            "ee-thresh (up to the bound; negative thresholds = NegativeChordAngle sentinel are out of contract and not judged), ee-max-err, ee-closest-*, "
+            "KNOWN-class clause ee-closest-nearpole when a vertex is within ~5 degrees of the other edge's pole; five known-class inputs are emitted by every shard).  plint (15 %): polylines of 1..1000 vertices with zero-length and reversing segments: "
+            "Interpolate / Uninterpolate / Project round trips judged through Go's own arc lengths and exact on-segment tests (pl-*). "
+            "non-trivial = every pedist / eedist / plint line",
+    "nontrivial": lambda l: not l.startswith("c17const"),
+    "trusted_base": ["NOT proved (partial): every numeric error bound (minUpdateDistanceMaxError etc.) — judged by the interval oracle",
+                     "libm-dependent functions (ChordAngle.Angle, Interpolate, DistanceFraction, Point.Distance) are not modelled; "
+                     "their outputs are judged through algebraic consequences and a Taylor enclosure of sin",
+                     "tolerance 2^-46 rad for Project / Interpolate / polylines is OURS (the Go port documents none)"],
+    "assumptions": ["unit-length inputs (Normalize guarantee), edge endpoints not antipodal (pi - 1e-9 at most)"],
+    "partial": ["numeric bounds are `def … : Prop` in S2Proofs/Properties/C17.lean; the EXACT threshold equivalence ThresholdAgrees is refuted "
+                "(1-ulp vertex / interior disagreement, inside the documented bound); the property-level statements are updateMinDistance_true_lt / "
+                "updateMinDistance_false_unchanged / isDistanceLess_partial"],
+}
+
